@@ -1446,7 +1446,11 @@ pub fn check_admission(w: i64, all_events: &[Hook], pre: &Model, est: &PreEstima
             if let Some(stranger) = sample.iter().find(|s| !charged.contains_key(&s.0)) {
                 push("sample-malformed", format!("sampled id {} is not charged (charged ids {:?})", stranger.0, charged.keys().collect::<Vec<_>>()));
             }
-            // (how many keys a sample holds is the implementation's choice; only record it)
+            // the first sample of a decision holds five keys, or every charged key if there are fewer
+            // (later ones shrink as the iteration over the weight table runs out)
+            if evicted == 0 && sample.len() < charged.len().min(5) {
+                push("sample-smaller-than-available", format!("the first sample holds {} keys although {} are charged", sample.len(), charged.len()));
+            }
             if sample.is_empty() {
                 push("sample-malformed", "a victim was taken from an empty sample".to_string());
             }
